@@ -1303,6 +1303,20 @@ impl Block {
             }
 
             // also check the transactions for golden ticket and fees
+            if transaction.transaction_type != TransactionType::SPV
+                && transaction.txs_replacements != 1
+            {
+                // only the SPV placeholders of a lite block stand for more than one transaction
+                warn!(
+                    "transaction in block {} claims to replace {} transactions",
+                    self.id, transaction.txs_replacements
+                );
+                return Err(Error::new(
+                    ErrorKind::InvalidData,
+                    "invalid transaction replacement count",
+                ));
+            }
+
             match transaction.transaction_type {
                 TransactionType::Issuance => {
                     has_issuance_transaction = true;
